@@ -16,7 +16,9 @@ claim('C06',
       'bit-vector (array calls, n<=2 quick / 3 thorough) or an int64-bounded Python int (scalar calls): the solver proves, for ALL field '
       'tuples at once, that in-range fields give exactly the documented shift-or layout, that unwrap(pack) returns the fields and '
       'pack(unwrap(id)) the id for every 64-bit id, that scalar and array calls agree, and that ValueError is raised exactly when a field is '
-      'out of range (and nothing else is raised). Per-field sweeps cannot cover 2^64 tuples; bit-vector reasoning does.',
+      'out of range (and nothing else is raised). run2d as vN_M_P (symbolic digits, 1-2 per component) and as an integer string, and IDs '
+      'given as decimal strings (19-20 symbolic digits) go through the same obligations via the symbolic string layer. Per-field sweeps '
+      'cannot cover 2^64 tuples; bit-vector reasoning does.',
       'numpy int64/uint64 = two\'s-complement bit-vectors with numpy.result_type promotion; numpy.recarray replaced by a record stand-in '
       'with numpy\'s casting-on-assignment rule; arrays longer than 3 and Python ints beyond 64 bits are outside the claim.',
       'DESIGN.md 4/C06')
